@@ -214,6 +214,7 @@ def streams(pid, tier, seed):
         # byte pairs (p, b) with stored-code-point(p) = raw b, as read out of the compiled library on this run
         du = infra.LAST_DUMPS.get("u")
         add("confusable", gen.sweep_confusable({b: v[1] for b, v in du["g0"].items() if v[0]} if du else None))
+        add("aba", gen.sweep_aba())
         if not q: add("sweepCharsN", gen.sweep_chars(1, seed), "n")
     elif pid == "C03":
         add("mixed", mixed_stream(seed, 15000 if q else 200000)[0])
